@@ -282,6 +282,34 @@ fn c07_corpus() {
     }
 }
 
+/// C11, rendering clause at stage level: voiced frames (log-F0 anywhere — inside the range, below the 20 Hz floor, above the
+/// ceiling) and no-data frames through `Vocoder::synthesize` with a zero spectrum and no low-pass stream
+/// (seeded change C11h: "no data" tested as `lf0 < MIN_LF0`, so low voiced frames were rendered with noise)
+pub fn gen_c11_render(seed: u64, thorough: bool) {
+    let mut rng = Rng::new(seed ^ 0xc11_0001);
+    let n = if thorough { 600 } else { 40 };
+    for i in 0..n {
+        let rate = *rng.pick(&[8000usize, 16000, 22050, 44100, 48000, 96000]);
+        let fperiod = rng.range(40, 480);
+        let nframes = rng.range(6, 24);
+        let frames: Vec<(f64, Vec<f64>, Vec<f64>)> = (0..nframes).map(|_| {
+            let lf0 = match rng.below(6) {
+                0 => NODATA,
+                1 => rng.uniform(1.0f64.ln(), 19.99f64.ln()),          // voiced, below the floor
+                2 => 20.0f64.ln() - rng.uniform(0.0, 1e-9),            // just below it
+                3 => rng.uniform(20000.0f64.ln(), 40000.0f64.ln()),    // above the ceiling
+                _ => rng.uniform(50.0f64.ln(), 500.0f64.ln()),
+            };
+            (lf0, vec![0.0; 3], vec![])
+        }).collect();
+        let case = VocCase { nmcp: 3, nlpf: 0, stage: 0, log_gain: false, rate, alpha: *[0.0, 0.42, 0.55].get(i % 3).unwrap(), beta: 0.0, volume: 1.0, fperiod, frames };
+        let mut line = String::from("voc C11r");
+        case.push(&mut line);
+        push_wave(&mut line, &case.run());
+        println!("{}", line);
+    }
+}
+
 pub fn gen_c07(seed: u64, thorough: bool) {
     c07_corpus();
     let mut rng = Rng::new(seed);
